@@ -244,6 +244,64 @@ func c06Globals(res *lib.Result, tier string, root *lib.Rng) error {
 		sess.Close()
 		os.RemoveAll(dir)
 	}
+	// a module file that defines a global named after the module, a file that requires the module and uses the
+	// global, a file that uses it without requiring: the name in the requiring file is the global, not "the module"
+	nMod := 3
+	if tier == "thorough" {
+		nMod = 60
+	}
+	for wi := 0; wi < nMod; wi++ {
+		m := []string{"utils", "helper", "netmod"}[wi%3]
+		pad := strings.Repeat("\n", wi/3%3)
+		files := map[string]string{
+			m + ".lua":  fmt.Sprintf("%s = {}\nfunction %s.add(a, b) return a + b end\n", m, m),
+			"main.lua":  fmt.Sprintf("%srequire(\"%s\")\nprint(%s.add(1, 2))\nlocal u = %s\nprint(u)\n", pad, m, m, m),
+			"other.lua": fmt.Sprintf("print(%s)\n", m),
+		}
+		np := len(pad)
+		want := []string{fmt.Sprintf("%s.lua:0:0", m), fmt.Sprintf("%s.lua:1:9", m), fmt.Sprintf("main.lua:%d:6", np+1), fmt.Sprintf("main.lua:%d:10", np+2), "other.lua:0:6"}
+		sort.Strings(want)
+		dir := lib.ScratchDir(fmt.Sprintf("c06m%d", wi))
+		if err := lib.WriteWorkspace(dir, files); err != nil {
+			return err
+		}
+		sess, err := lib.StartSession(dir, lib.AllChecksOptions())
+		if err != nil {
+			os.RemoveAll(dir)
+			return err
+		}
+		for f, t := range files {
+			sess.DidOpen(f, t)
+		}
+		sess.Sync()
+		world := fmt.Sprintf("-- %s.lua\n%s-- main.lua\n%s-- other.lua\n%s", m, files[m+".lua"], files["main.lua"], files["other.lua"])
+		for _, w := range want {
+			var f string
+			var ln, col int
+			k := strings.LastIndex(w[:strings.LastIndex(w, ":")], ":")
+			f = w[:k]
+			fmt.Sscanf(w[k+1:], "%d:%d", &ln, &col)
+			caseText := fmt.Sprintf("references at %s %d:%d (%s) in\n%s", f, ln, col, m, world)
+			lib.Breadcrumb("C06 " + caseText)
+			locs, err := sess.References(f, ln, col, true)
+			if err != nil {
+				res.AddViolation("crash-or-timeout", err.Error(), caseText, false)
+				continue
+			}
+			var got []string
+			for _, l := range locs {
+				got = append(got, fmt.Sprintf("%s:%d:%d", sess.Rel(l.URI), l.Range.Start.Line, l.Range.Start.Character))
+			}
+			sort.Strings(got)
+			res.Count(fmt.Sprintf("mod%d/%s", wi, w), true)
+			res.Dist("module-named-global")
+			if strings.Join(got, " ") != strings.Join(want, " ") {
+				res.AddViolation("impl-vs-spec", fmt.Sprintf("references of the global %s: [%s], its occurrences are [%s]", m, strings.Join(got, " "), strings.Join(want, " ")), caseText, false)
+			}
+		}
+		sess.Close()
+		os.RemoveAll(dir)
+	}
 	// more files than the reference search has workers (NumCPU+2): every file's occurrence must be found once
 	nBig := 2
 	if tier == "thorough" {
